@@ -978,7 +978,12 @@ func isinstance(obj py.Object, classOrTuple py.Object) (py.Bool, error) {
 		if classOrTuple.Type().ObjectType != py.TypeType {
 			return false, py.ExceptionNewf(py.TypeError, "isinstance() arg 2 must be a type or tuple of types")
 		}
-		return obj.Type() == classOrTuple, nil
+		cls, ok := classOrTuple.(*py.Type)
+		if !ok {
+			return false, py.ExceptionNewf(py.TypeError, "isinstance() arg 2 must be a type or tuple of types")
+		}
+		// an instance of a subclass is an instance of the class
+		return py.NewBool(obj.Type() == cls || obj.Type().IsSubtype(cls)), nil
 	}
 }
 
